@@ -681,6 +681,11 @@ pub fn replay_bounded(unit: &str) -> Option<i32> {
         "b_generate_constructed" => run_grid(unit, contract_generate_constructed, limit),
         "b_c04_component_bounds" => run_grid(unit, contract_generate_component_bounds, limit),
         "b_generate_enumerated" => run_grid(unit, contract_generate_enumerated, limit),
+        "b_c02_validator_passes" => run_grid(unit, contract_validator_marks_recursion_despite_warnings, limit),
+        "b_c03_pipeline_tagging" => run_grid(unit, contract_pipeline_tagging_default_of_the_defining_module, limit),
+        "b_c03_format_tag" => run_grid(unit, contract_format_tag, limit),
+        "b_c06_generate_integer_assignment" => run_grid(unit, contract_generate_integer_assignment, limit),
+        "b_c07_named_value_resolution" => run_grid(unit, contract_named_value_resolution, limit),
         "b_c06_literal_width" => run_grid(unit, contract_literal_width, limit),
         "b_c04_named_number_via_reference" => run_grid(unit, contract_named_number_through_reference, limit),
         "b_c04_string_component_size" => run_grid(unit, contract_generate_string_component_size, limit),
@@ -791,6 +796,8 @@ pub fn contract_integer_set_expression<C: Ctx>(cx: &mut C) {
             }
             for v in [i128::MIN / 2, i128::MAX / 2] { if member(v) && !got.contains(v) { ok = false; } }
             vob!(cx, "C04.fold.never_excludes_a_permitted_value", ok);
+            // C06: the component's integer type is chosen from this range, so it must contain every permitted value
+            vob!(cx, "C06.component_path.folded_range_contains_every_permitted_value", ok);
             vob!(cx, "C04.fold.lower_bound_is_per_visible_effective", got.lo == reference.lo);
             vob!(cx, "C04.fold.upper_bound_is_per_visible_effective", got.hi == reference.hi);
             // flagged extensible exactly when the constraint carries an extension marker (operands carry none here)
@@ -906,13 +913,16 @@ pub fn contract_generate_constructed<C: Ctx>(cx: &mut C) {
             extensibility_environment: if implied { ExtensibilityEnvironment::Implied } else { ExtensibilityEnvironment::Explicit }, imports: vec![], exports: None }));
         // optionally component f0 is an anonymous SEQUENCE { x BOOLEAN } that has to be hoisted into an item of its own
         let nested = cx.any_bool();
-        let nested_recursive = nested && cx.any_bool();   // the linker marked the anonymous component as recursive
+        let nested_recursive = nested && n <= 2 && cx.any_bool();   // the linker marked the anonymous component as recursive
+        // the component that carries the anonymous type may have a name that needs mangling (Rust keyword, hyphen)
+        //   (varied only for single-component types, to keep the product small)
+        let first_name = if nested && n == 1 { ["f0", "struct", "my-field", "type"][cx.choose(4)] } else { "f0" };
         let ty = if nested {
             let inner = ASN1Type::Sequence(SequenceOrSet { components_of: vec![], extensible: None, constraints: vec![], members: vec![SequenceOrSetMember { name: "x".into(), tag: None, ty: ASN1Type::Boolean(Boolean { constraints: vec![] }), optionality: Optionality::Required, is_recursive: false, constraints: vec![] }] });
             match ty {
-                ASN1Type::Choice(mut c) => { c.options[0].ty = inner; c.options[0].is_recursive = nested_recursive; ASN1Type::Choice(c) }
-                ASN1Type::Sequence(mut s) => { s.members[0].ty = inner; s.members[0].is_recursive = nested_recursive; ASN1Type::Sequence(s) }
-                ASN1Type::Set(mut s) => { s.members[0].ty = inner; s.members[0].is_recursive = nested_recursive; ASN1Type::Set(s) }
+                ASN1Type::Choice(mut c) => { c.options[0].ty = inner; c.options[0].is_recursive = nested_recursive; c.options[0].name = first_name.into(); ASN1Type::Choice(c) }
+                ASN1Type::Sequence(mut s) => { s.members[0].ty = inner; s.members[0].is_recursive = nested_recursive; s.members[0].name = first_name.into(); ASN1Type::Sequence(s) }
+                ASN1Type::Set(mut s) => { s.members[0].ty = inner; s.members[0].is_recursive = nested_recursive; s.members[0].name = first_name.into(); ASN1Type::Set(s) }
                 other => other,
             }
         } else { ty };
@@ -921,7 +931,7 @@ pub fn contract_generate_constructed<C: Ctx>(cx: &mut C) {
         let top_tag = if top_tagged { Some(AsnTag { environment: env, tag_class: TagClass::Application, id: 3 }) } else { None };
         let tld_with = |h: &Rc<RefCell<ModuleHeader>>, ty: &ASN1Type, tag: Option<AsnTag>| ToplevelDefinition::Type(ToplevelTypeDefinition { comments: String::new(), tag, name: "T".into(), ty: ty.clone(), parameterization: None, module_header: Some(h.clone()) });
         let tld = |h: &Rc<RefCell<ModuleHeader>>, ty: &ASN1Type| tld_with(h, ty, None);
-        cx.describe(|| format!("module_default={env:?} extensibility_implied={implied} kind={} f0_is_anonymous_sequence={nested} f0_marked_recursive={nested_recursive} type_assignment_tagged={top_tagged} components={n} first_addition_index={extensible:?} optional={:?} tagged={:?}", ["SEQUENCE", "SET", "CHOICE"][kind], &optional[..n], &tagged[..n]));
+        cx.describe(|| format!("module_default={env:?} extensibility_implied={implied} kind={} first_component={first_name} f0_is_anonymous_sequence={nested} f0_marked_recursive={nested_recursive} type_assignment_tagged={top_tagged} components={n} first_addition_index={extensible:?} optional={:?} tagged={:?}", ["SEQUENCE", "SET", "CHOICE"][kind], &optional[..n], &tagged[..n]));
         let h = header("M", env, implied);
         let mut backend = crate::generator::rasn::Rasn::default();
         let top_tag_again = top_tag.clone();
@@ -932,7 +942,8 @@ pub fn contract_generate_constructed<C: Ctx>(cx: &mut C) {
         let mut in_order = fields.len() == n;
         for (i, f) in fields.iter().enumerate() {
             let key = if kind == 2 { format!("f{i} (") } else { format!("pub f{i} :") };
-            in_order = in_order && f.contains(&key);
+            // the first component may carry a name that is mangled (keyword / hyphen): only its position is checked
+            if !(nested && i == 0 && first_name != "f0") { in_order = in_order && f.contains(&key); }
         }
         vob!(cx, "C02.generate.one_field_or_variant_per_component_in_order", in_order);
         if !in_order { return; }
@@ -948,9 +959,13 @@ pub fn contract_generate_constructed<C: Ctx>(cx: &mut C) {
         vob!(cx, "C02.generate.optional_components_are_option", opt_ok);
         if nested {
             // the anonymous type is generated as an item of its own, keeps its component, and inherits the module's defaults
-            let hoisted = item_of(&generated, "TF0");
-            vob!(cx, "C02.generate.anonymous_nested_type_is_hoisted_with_its_components", matches!(&hoisted, Some((_, fs)) if fs.len() == 1 && fs[0].contains("pub x : bool")) && fields[0].contains("TF0"));
-            vob!(cx, "C02.generate.recursive_anonymous_component_is_boxed", fields[0].contains("Box < TF0 >") == nested_recursive);
+            // the type the first field / variant refers to ...
+            let type_text = if kind == 2 { fields[0].rsplit('(').next().unwrap_or("").trim_end_matches(')').trim().to_string() } else { fields[0].rsplit(':').next().unwrap_or("").trim().to_string() };
+            let referenced: String = type_text.replace("Option <", "").replace("Box <", "").replace('>', "").trim().to_string();
+            // ... must be an item that was actually generated, with the anonymous type's component
+            let hoisted = item_of(&generated, &referenced);
+            vob!(cx, "C02.generate.anonymous_nested_type_is_hoisted_with_its_components", !referenced.is_empty() && referenced != "bool" && matches!(&hoisted, Some((_, fs)) if fs.len() == 1 && fs[0].contains("pub x : bool")));
+            vob!(cx, "C02.generate.recursive_anonymous_component_is_boxed", type_text.contains(&format!("Box < {referenced} >")) == nested_recursive);
             if let Some((inner_attrs, _)) = &hoisted {
                 vob!(cx, "C05.generate.nested_type_extensible_iff_extensibility_implied", inner_attrs.contains("non_exhaustive") == implied);
                 vob!(cx, "C03.generate.nested_type_automatic_tags_iff_automatic_module", inner_attrs.contains("automatic_tags") == (env == TaggingEnvironment::Automatic));
@@ -1011,17 +1026,21 @@ pub fn contract_constraint_value_references<C: Ctx>(cx: &mut C) {
         } else {
             (SubtypeElements::ValueRange { min: lo, max: hi, extensible: false }, lo_want, hi_want)
         };
-        let position = cx.choose(4); // 0 type assignment INTEGER, 1 SIZE on OCTET STRING, 2 SEQUENCE component, 3 union with a literal far outside
+        let position = cx.choose(8); // 0 type assignment INTEGER, 1 SIZE on OCTET STRING, 2 SEQUENCE component, 3 union with 5, 4 SIZE on BIT STRING, 5 SIZE on IA5String, 6 SIZE on SEQUENCE OF, 7 SIZE on SET OF
         let (set, want_lo, want_hi) = match position {
             3 => (ElementOrSetOperation::SetOperation(SetOperation { base: elem, operator: SetOperator::Union, operant: Box::new(ElementOrSetOperation::Element(SubtypeElements::SingleValue { value: ASN1Value::Integer(5), extensible: false })) }),
                   want_lo.map(|l: i128| l.min(5)), want_hi.map(|h: i128| h.max(5))),
-            1 => (ElementOrSetOperation::Element(SubtypeElements::SizeConstraint(Box::new(ElementOrSetOperation::Element(elem)))), want_lo, want_hi),
+            1 | 4 | 5 | 6 | 7 => (ElementOrSetOperation::Element(SubtypeElements::SizeConstraint(Box::new(ElementOrSetOperation::Element(elem)))), want_lo, want_hi),
             _ => (ElementOrSetOperation::Element(elem), want_lo, want_hi),
         };
         let c = Constraint::Subtype(ElementSetSpecs { set, extensible: false });
         let int_ty = |cs: Vec<Constraint>| ASN1Type::Integer(Integer { constraints: cs, distinguished_values: None });
         let ty = match position {
             1 => ASN1Type::OctetString(OctetString { constraints: vec![c] }),
+            4 => ASN1Type::BitString(BitString { constraints: vec![c], distinguished_values: None }),
+            5 => ASN1Type::CharacterString(CharacterString { constraints: vec![c], ty: CharacterStringType::IA5String }),
+            6 => ASN1Type::SequenceOf(SequenceOrSetOf { constraints: vec![c], element_type: Box::new(ASN1Type::Boolean(Boolean { constraints: vec![] })), element_tag: None, is_recursive: false }),
+            7 => ASN1Type::SetOf(SequenceOrSetOf { constraints: vec![c], element_type: Box::new(ASN1Type::Boolean(Boolean { constraints: vec![] })), element_tag: None, is_recursive: false }),
             2 => ASN1Type::Sequence(SequenceOrSet { components_of: vec![], extensible: None, constraints: vec![], members: vec![SequenceOrSetMember { name: "a".into(), tag: None, ty: int_ty(vec![c]), optionality: Optionality::Required, is_recursive: false, constraints: vec![] }] }),
             _ => int_ty(vec![c]),
         };
@@ -1029,7 +1048,7 @@ pub fn contract_constraint_value_references<C: Ctx>(cx: &mut C) {
         tlds.insert("v".into(), ToplevelDefinition::Value(ToplevelValueDefinition::from(("v", ASN1Value::Integer(3), int_ty(vec![])))));
         tlds.insert("w".into(), ToplevelDefinition::Value(ToplevelValueDefinition::from(("w", ASN1Value::Integer(7), int_ty(vec![])))));
         let mut tld = ToplevelDefinition::Type(ToplevelTypeDefinition { comments: String::new(), tag: None, name: "T".into(), ty, parameterization: None, module_header: None });
-        cx.describe(|| format!("lower={} upper={} single_value={single} position={}", ["literal", "reference", "MIN"][lo_k], ["literal", "reference", "MAX"][hi_k], ["INTEGER type assignment", "SIZE of OCTET STRING", "SEQUENCE component", "union with 5"][position]));
+        cx.describe(|| format!("lower={} upper={} single_value={single} position={}", ["literal", "reference", "MIN"][lo_k], ["literal", "reference", "MAX"][hi_k], ["INTEGER type assignment", "SIZE of OCTET STRING", "SEQUENCE component", "union with 5", "SIZE of BIT STRING", "SIZE of IA5String", "SIZE of SEQUENCE OF", "SIZE of SET OF"][position]));
         // exactly what Validator::validate does
         if tld.has_constraint_reference() {
             let linked = tld.link_constraint_reference(&tlds);
@@ -1042,10 +1061,11 @@ pub fn contract_constraint_value_references<C: Ctx>(cx: &mut C) {
             },
             _ => vec![],
         };
-        match per_visible_range_constraints(position != 1, &constraints) {
+        let is_size = matches!(position, 1 | 4 | 5 | 6 | 7);
+        match per_visible_range_constraints(!is_size, &constraints) {
             Ok(r) => {
                 let (glo, ghi): (Option<i128>, Option<i128>) = (r.min(), r.max());
-                let want_lo = if position == 1 { want_lo.or(Some(0)) } else { want_lo };
+                let want_lo = if is_size { want_lo.or(Some(0)) } else { want_lo };
                 vob!(cx, "C04.references.lower_bound_resolved_to_the_referenced_value", glo == want_lo);
                 vob!(cx, "C04.references.upper_bound_resolved_to_the_referenced_value", ghi == want_hi);
             }
@@ -1827,6 +1847,168 @@ pub fn contract_literal_width<C: Ctx>(cx: &mut C) {
             }
             _ => { vob!(cx, "C06.literal.becomes_a_typed_integer", false); }
         }
+    }
+    #[cfg(kani)]
+    { let _ = cx; }
+}
+
+/// C03 — `Rasn::format_tag` (generator/rasn/utils.rs): every class, every mode, the number unchanged.
+pub fn contract_format_tag<C: Ctx>(cx: &mut C) {
+    #[cfg(not(kani))]
+    {
+        let class = cx.choose(4);
+        let env = any_tagenv(cx);
+        let id = [0u64, 1, 30, 31, 127, 16383, u32::MAX as u64][cx.choose(7)];
+        let (tc, name) = [(TagClass::Universal, "universal"), (TagClass::Application, "application"), (TagClass::Private, "private"), (TagClass::ContextSpecific, "context")][class];
+        cx.describe(|| format!("tag=[{name} {id}] resolved_mode={env:?}"));
+        let backend = crate::generator::rasn::Rasn::default();
+        let text = backend.format_tag(Some(&AsnTag { environment: env, tag_class: tc, id })).to_string();
+        let want = if env == TaggingEnvironment::Explicit { format!("tag (explicit ({name} , {id}))") } else { format!("tag ({name} , {id})") };
+        vob!(cx, "C03.format_tag.class_number_and_mode_as_resolved", text == want);
+        vob!(cx, "C03.format_tag.no_tag_no_annotation", backend.format_tag(None).to_string().is_empty());
+    }
+    #[cfg(kani)]
+    { let _ = cx; }
+}
+
+/// C06 — the assignment path end to end at the generator: `Backend::generate_module` for `A ::= INTEGER (lo..hi[, ...])`
+/// (generate_integer -> Integer::int_type -> ToTokens for IntegerType): the newtype wraps the narrowest type holding
+/// [lo,hi], Integer when extensible.
+pub fn contract_generate_integer_assignment<C: Ctx>(cx: &mut C) {
+    #[cfg(not(kani))]
+    {
+        use crate::intermediate::constraints::*;
+        use crate::intermediate::types::*;
+        use crate::generator::Backend;
+        use std::{cell::RefCell, rc::Rc};
+        const PTS: [i128; 16] = [-9223372036854775809, -9223372036854775808, -2147483649, -2147483648, -32769, -32768, -129, -128, 0, 127, 255, 256, 65535, 4294967295, 9223372036854775808, 18446744073709551615];
+        let lo = PTS[cx.choose(16)];
+        let hi = PTS[cx.choose(16)];
+        if !cx.assume(lo <= hi) { return; }
+        let ext = cx.any_bool();
+        let as_element = cx.any_bool(); // element newtype of `A ::= SEQUENCE OF INTEGER (lo..hi)`
+        let c = Constraint::Subtype(ElementSetSpecs { set: ElementOrSetOperation::Element(SubtypeElements::ValueRange { min: Some(ASN1Value::Integer(lo)), max: Some(ASN1Value::Integer(hi)), extensible: ext }), extensible: false });
+        let int = ASN1Type::Integer(Integer { constraints: vec![c], distinguished_values: None });
+        let ty = if as_element { ASN1Type::SequenceOf(SequenceOrSetOf { constraints: vec![], element_type: Box::new(int), element_tag: None, is_recursive: false }) } else { int };
+        cx.describe(|| format!("A ::= {}INTEGER ({lo}..{hi}{})", if as_element { "SEQUENCE OF " } else { "" }, if ext { ", ..." } else { "" }));
+        let h = Rc::new(RefCell::new(ModuleHeader { name: "M".into(), module_identifier: None, encoding_reference_default: None, tagging_environment: TaggingEnvironment::Automatic, extensibility_environment: ExtensibilityEnvironment::Explicit, imports: vec![], exports: None }));
+        let tld = ToplevelDefinition::Type(ToplevelTypeDefinition { comments: String::new(), tag: None, name: "A".into(), ty, parameterization: None, module_header: Some(h) });
+        let mut backend = crate::generator::rasn::Rasn::default();
+        let generated = match backend.generate_module(vec![tld]) { Ok(m) if m.warnings.is_empty() => m.generated.unwrap_or_default(), _ => { vob!(cx, "C06.generate.integer_assignment_is_generated", false); return; } };
+        let want = if ext { "Integer" } else if lo >= 0 {
+            if hi <= 255 { "u8" } else if hi <= 65535 { "u16" } else if hi <= 4294967295 { "u32" } else if hi <= 18446744073709551615 { "u64" } else { "Integer" }
+        } else if lo >= -128 && hi <= 127 { "i8" } else if lo >= -32768 && hi <= 32767 { "i16" } else if lo >= -2147483648 && hi <= 2147483647 { "i32" }
+          else if lo >= -9223372036854775808 && hi <= 9223372036854775807 { "i64" } else { "Integer" };
+        let item = if as_element { "AnonymousA" } else { "A" };
+        vob!(cx, "C06.generate.assignment_newtype_wraps_the_narrowest_type_that_holds_the_range", generated.contains(&format!("pub struct {item} (pub {want})")));
+    }
+    #[cfg(kani)]
+    { let _ = cx; }
+}
+
+/// C07 — "named numbers, enumerals ... resolved against the governing type": `ASN1Value::link_with_type` with a
+/// referenced governing type and an identifier value: a named number / enumeral of the governing type wins over a
+/// same-named value assignment elsewhere in the module.
+pub fn contract_named_value_resolution<C: Ctx>(cx: &mut C) {
+    #[cfg(not(kani))]
+    {
+        use crate::intermediate::types::*;
+        use std::collections::BTreeMap;
+        let enumerated = cx.any_bool();
+        let shadowed = cx.any_bool();       // a value assignment with the same identifier exists
+        let shadow_same_type = shadowed && cx.any_bool();
+        let mut tlds: BTreeMap<String, ToplevelDefinition> = BTreeMap::new();
+        let level = if enumerated {
+            ASN1Type::Enumerated(Enumerated { members: vec![Enumeral { name: "none".into(), description: None, index: 0 }, Enumeral { name: "retries".into(), description: None, index: 1 }], extensible: None, constraints: vec![] })
+        } else {
+            ASN1Type::Integer(Integer { constraints: vec![], distinguished_values: Some(vec![DistinguishedValue { name: "none".into(), value: 0 }, DistinguishedValue { name: "retries".into(), value: 1 }]) })
+        };
+        tlds.insert("Level".into(), ToplevelDefinition::Type(ToplevelTypeDefinition { comments: String::new(), tag: None, name: "Level".into(), ty: level, parameterization: None, module_header: None }));
+        if shadowed && !shadow_same_type {
+            tlds.insert("retries".into(), ToplevelDefinition::Value(ToplevelValueDefinition::from(("retries", ASN1Value::Integer(7), ASN1Type::Integer(Integer { constraints: vec![], distinguished_values: None })))));
+        }
+        cx.describe(|| format!("Level ::= {} {{ none(0), retries(1) }}; component `level Level DEFAULT retries`{}", if enumerated { "ENUMERATED" } else { "INTEGER" }, if shadowed && !shadow_same_type { "; retries INTEGER ::= 7 also defined" } else { "" }));
+        let governing = ASN1Type::ElsewhereDeclaredType(DeclarationElsewhere { parent: None, module: None, identifier: "Level".into(), constraints: vec![] });
+        let mut v = ASN1Value::ElsewhereDeclaredValue { module: None, parent: None, identifier: "retries".into() };
+        let name = String::from("Config");
+        let r = v.link_with_type(&tlds, &governing, Some(&name));
+        vob!(cx, "C07.named_value.links", r.is_ok());
+        // whatever wrapper the linker uses, the value must denote number 1 / enumeral `retries` of Level — never 7
+        fn denotes(v: &ASN1Value) -> String {
+            match v {
+                ASN1Value::LinkedNestedValue { value, .. } => denotes(value),
+                ASN1Value::LinkedIntValue { value, .. } => format!("int:{value}"),
+                ASN1Value::Integer(i) => format!("int:{i}"),
+                ASN1Value::EnumeratedValue { enumerated, enumerable } => format!("enum:{enumerated}.{enumerable}"),
+                ASN1Value::LinkedElsewhereDefinedValue { identifier, .. } | ASN1Value::ElsewhereDeclaredValue { identifier, .. } => format!("ref:{identifier}"),
+                other => format!("{other:?}"),
+            }
+        }
+        let d = denotes(&v);
+        vob!(cx, "C07.named_value.named_number_of_the_governing_type_wins", if enumerated { d == "enum:Level.retries" } else { d == "int:1" });
+    }
+    #[cfg(kani)]
+    { let _ = cx; }
+}
+
+/// C02 — the linker passes of one definition are independent (validator/mod.rs `Validator::link` via `validate`):
+/// recursion marking happens whether or not another component's DEFAULT could be linked (that failure is only a warning).
+pub fn contract_validator_marks_recursion_despite_warnings<C: Ctx>(cx: &mut C) {
+    #[cfg(not(kani))]
+    {
+        use crate::intermediate::types::*;
+        let default_kind = cx.choose(3); // 0 no DEFAULT, 1 resolvable DEFAULT TRUE, 2 DEFAULT that names an unknown value
+        let set = cx.any_bool();
+        let optionality = match default_kind {
+            0 => Optionality::Required,
+            1 => Optionality::Default(ASN1Value::Boolean(true)),
+            _ => Optionality::Default(ASN1Value::ElsewhereDeclaredValue { module: None, parent: Some("Settings".into()), identifier: "defaultVisible".into() }),
+        };
+        let members = vec![
+            SequenceOrSetMember { name: "visible".into(), tag: None, ty: ASN1Type::Boolean(Boolean { constraints: vec![] }), optionality, is_recursive: false, constraints: vec![] },
+            SequenceOrSetMember { name: "next".into(), tag: None, ty: ASN1Type::ElsewhereDeclaredType(DeclarationElsewhere { parent: None, module: None, identifier: "Node".into(), constraints: vec![] }), optionality: Optionality::Optional, is_recursive: false, constraints: vec![] },
+        ];
+        let s = SequenceOrSet { components_of: vec![], extensible: None, constraints: vec![], members };
+        let tld = ToplevelDefinition::Type(ToplevelTypeDefinition { comments: String::new(), tag: None, name: "Node".into(), ty: if set { ASN1Type::Set(s) } else { ASN1Type::Sequence(s) }, parameterization: None, module_header: None });
+        cx.describe(|| format!("Node ::= {} {{ visible BOOLEAN{}, next Node OPTIONAL }}", if set { "SET" } else { "SEQUENCE" }, ["", " DEFAULT TRUE", " DEFAULT Settings.defaultVisible (undefined)"][default_kind]));
+        match crate::validator::Validator::new(vec![tld]).validate() {
+            Ok((tlds, _warnings)) => {
+                let node = tlds.iter().find_map(|t| match t { ToplevelDefinition::Type(t) if t.name == "Node" => Some(t), _ => None });
+                match node.map(|n| &n.ty) {
+                    Some(ASN1Type::Sequence(s)) | Some(ASN1Type::Set(s)) => {
+                        vob!(cx, "C02.validator.components_kept", s.members.len() == 2);
+                        vob!(cx, "C02.validator.recursive_component_is_marked_for_boxing", s.members.iter().any(|m| m.name == "next" && m.is_recursive));
+                    }
+                    // a definition that is dropped with a warning is a C10 matter, not asserted here
+                    _ => {}
+                }
+            }
+            Err(_) => {}
+        }
+    }
+    #[cfg(kani)]
+    { let _ = cx; }
+}
+
+/// C03 — whole pipeline (`Compiler::compile_to_string`): a tag is resolved with the default of the module it was
+/// WRITTEN in, also when the component is copied into a type of another module by COMPONENTS OF.
+pub fn contract_pipeline_tagging_default_of_the_defining_module<C: Ctx>(cx: &mut C) {
+    #[cfg(not(kani))]
+    {
+        const TAGS: [&str; 3] = ["AUTOMATIC", "IMPLICIT", "EXPLICIT"];
+        let a = cx.choose(3);
+        let b = cx.choose(3);
+        let src = format!("ModA DEFINITIONS {} TAGS ::= BEGIN EXPORTS ALL; Base ::= SEQUENCE {{ a [0] INTEGER, b [1] BOOLEAN }} END\nModB DEFINITIONS {} TAGS ::= BEGIN IMPORTS Base FROM ModA; Ext ::= SEQUENCE {{ COMPONENTS OF Base, c [2] NULL }} Own ::= SEQUENCE {{ d [3] NULL }} END", TAGS[a], TAGS[b]);
+        cx.describe(|| src.clone());
+        let out = crate::Compiler::<crate::generator::rasn::Rasn, _>::new().add_asn_literal(&src).compile_to_string();
+        let Ok(res) = out else { vob!(cx, "C03.pipeline.compiles", false); return; };
+        let g = res.generated;
+        let exp = |explicit: bool, n: u32| if explicit { format!("tag (explicit (context , {n}))") } else { format!("tag (context , {n})") };
+        // in its own module
+        let base = item_of(&g, "Base"); let ext = item_of(&g, "Ext"); let own = item_of(&g, "Own");
+        let has = |item: &Option<(String, Vec<String>)>, field: &str, want: &str| item.as_ref().map_or(false, |(_, fs)| fs.iter().any(|f| f.contains(&format!("pub {field} :")) && f.contains(want) && (want.contains("explicit") || !f.contains("explicit"))));
+        vob!(cx, "C03.pipeline.tag_resolved_with_the_default_of_its_own_module", has(&base, "a", &exp(a == 2, 0)) && has(&own, "d", &exp(b == 2, 3)) && has(&ext, "c", &exp(b == 2, 2)));
+        vob!(cx, "C03.pipeline.copied_component_keeps_the_mode_of_the_module_it_was_written_in", has(&ext, "a", &exp(a == 2, 0)) && has(&ext, "b", &exp(a == 2, 1)));
     }
     #[cfg(kani)]
     { let _ = cx; }
